@@ -514,3 +514,36 @@ def r9_method_to_fn(w, method, fn_name, by_mut=False, arg_map=None):
                   "std method `%s` without Verus spec -> shim fn %s" % (method, fn_name))
         n += 1
     return n
+
+
+# ----------------------------------------------------------------------------
+# R12 (walkdir form): for x in WalkDir::new(D).into_iter().filter_map(|e| e.ok()).filter(|p| C) { B }
+#   -> { let mut __it = walk_ok_entries(D, Tracked(w)); loop inv.. { let x = match __it.next() { Some(v) => v, None => break };
+#        if !(C[x/p]) { continue; } B } }
+# ----------------------------------------------------------------------------
+
+def r12_walk(w, invariants, decreases="__it.rest().len()", ensures=("__it.rest().len() == 0",)):
+    cands = []
+    for kw, s, e in w.loops():
+        if kw != "for":
+            continue
+        ob = w.loop_open_brace(e)
+        if "WalkDir::new" in w.mbody[e:ob]:
+            cands.append((s, e, ob))
+    if len(cands) != 1:
+        raise LostAnchor("for .. in WalkDir::new(..) not found exactly once in %s" % w.qual())
+    s, e, ob = cands[0]
+    hdr = w.body[e:ob]
+    m = re.match(r"\s+(\w+)\s+in\s+WalkDir::new\(\s*(.+?)\s*\)\s*\.into_iter\(\)\s*\.filter_map\(\s*\|(\w+)\|\s*(\w+)\.ok\(\)\s*\)\s*\.filter\(\s*\|(\w+)\|\s*(.+?)\s*\)\s*$", hdr, re.S)
+    if not m or m.group(3) != m.group(4):
+        raise LostAnchor("WalkDir iterator chain shape changed in %s: %r" % (w.qual(), hdr.strip()))
+    var, dirx, _, _, p, cond = m.groups()
+    cond2 = re.sub(r"\b%s\b" % re.escape(p), var, cond)
+    cb = lexer.match_close(w.body, ob)
+    inv = inv_text(invariants, decreases, list(ensures))
+    w.replace(s, ob, "{ let mut __it = walk_ok_entries(%s, Tracked(w)); loop%s" % (dirx, inv), "R12",
+              "for over WalkDir::new(%s)..filter_map(ok).filter(|%s| %s) -> loop over the iterator shim" % (dirx, p, cond))
+    w.insert_at(ob + 1, " let %s = match __it.next() { Some(v) => v, None => break }; if !(%s) { continue; }" % (var, cond2), "R12",
+                "element binding; filter condition from the real closure")
+    w.insert_at(cb + 1, " }", "R12", "close iterator scope")
+    return var, dirx, cond2
